@@ -5,6 +5,7 @@ package main
 
 import (
 	"fmt"
+	"go/types"
 	"strings"
 
 	"golang.org/x/tools/go/ssa"
@@ -290,7 +291,7 @@ func hasRealReferrers(v ssa.Value) bool {
 func runC14(w *World, c *Check) {
 	c.Rule("C14.layout", "reader and writer follow the MIT keytab format field by field (widths, order, version conditions, loops) and agree with each other", 28)
 	c.Rule("C14.endian", "integers are big-endian except in version 1 on a little-endian host, selected identically by reader and writer", 4)
-	c.Rule("C14.holes", "records with a negative length are skipped, not parsed; parsing stops at a zero length", 2)
+	c.Rule("C14.holes", "records with a negative length are skipped, not parsed; parsing stops at a zero length; a hole may be the last record", 3)
 	c.Rule("C14.kvno", "the 32-bit key version overrides the 8-bit one only when present and non-zero", 2)
 	c.Rule("C14.errors", "no reader error is dropped in Keytab.Unmarshal's call tree", 8)
 	keytabFilterRule(w, c, "C14.filter")
@@ -392,6 +393,45 @@ func runC14(w *World, c *Check) {
 					okHole = false
 				}
 			}
+		}
+		// a hole may end exactly at the end of the file (ktutil leaves that after deleting the last key):
+		// a length test inside the hole branch that only rejects must let position == len(b) through
+		{
+			bc := newBoundsCtx(w, fn)
+			okEnd, detail := true, ""
+			var bparam ssa.Value
+			for _, p := range fn.Params {
+				if _, isSl := p.Type().Underlying().(*types.Slice); isSl {
+					bparam = p
+				}
+			}
+			lenAtom := atom{kind: 'l', v: bparam}
+			for _, e := range neg {
+				for _, rb := range regionOf(e.To()) {
+					iff, isIf := lastInstr(rb).(*ssa.If)
+					if !isIf {
+						continue
+					}
+					for k := 0; k < 2; k++ {
+						if !rejectsOnly(fa, rb.Succs[k], rb.Succs[1-k]) {
+							continue
+						}
+						for _, f := range bc.condFacts(iff.Cond, k == 0) {
+							cl, has := f.t[lenAtom]
+							if !has {
+								continue
+							}
+							// f = cl·len(b) − (position terms) + k ≤ 0 rejects large positions when cl > 0;
+							// at position == cl·len(b) it reads k ≤ 0
+							if cl > 0 && len(f.t) > 1 && f.k <= 0 {
+								okEnd = false
+								detail = "the rejection `" + fa.CondOf(iff).String() + "` fires when the hole ends exactly at the end of the data"
+							}
+						}
+					}
+				}
+			}
+			c.Decide(okEnd, "C14.holes", FuncKey(fn), "hole-may-end-the-file", w.Pos(fn.Pos()), "skipping a deleted entry is not an error when it is the last record", detail)
 		}
 		c.Decide(okHole, "C14.holes", FuncKey(fn), "negative-length-skipped", w.Pos(fn.Pos()), "a record with a negative length (deleted entry) is skipped over, not parsed", "the entry parser is reachable with a negative record length")
 		zero := fa.MatchGuard(EqPass("0", `\$L\d+|keytab\.readInt32\(b, [^\[]*\)#0`))
